@@ -131,8 +131,9 @@ CONTRACTS = {
         "ensures": {
             "same_len": "len(result) == len(groups)",
             "ordered": "groups_ordered(result)",
-            "content": "perm(flat(result), flat(groups))",
         },
+        # decided at run time only (a sum over a permutation of groups is out of the solver's reach): the same spans come out
+        "runtime_ensures": {"content": "perm(flat(result), flat(groups))"},
         "pure": True,
     },
     "sequence_groups_of_otel_events_asynchronously": {
@@ -313,14 +314,18 @@ CONTRACTS = {
                       "and result[q]['applicationName'] == event_id_to_event_map[list(event_id_to_event_map)[q]].application_name "
                       "and result[q]['timestamp'] == unix_nano_to_pv_string(event_id_to_event_map[list(event_id_to_event_map)[q]].end_timestamp) "
                       "for q in range(len(event_id_to_event_map)))",
-            # "its predecessor links form an acyclic, single-start order in which each span follows all of its descendants"
-            "acyclic": "pv_acyclic(result)",
-            "after_descendants": "pv_after_descendants(result, event_id_to_event_map)",
-            "single_start": "implies(not async_flag and len(gm(event_to_async_group_map)) == 0, pv_starts(result) == 1)",
             # "the links are exactly those of the documented rules": LINKS from the root with no predecessor
             "links": "all(result[q]['previousEventIds'] == LINKS(get_root_event_from_event_id_to_event_map(event_id_to_event_map), "
                      "event_id_to_event_map, [], async_flag, gm(event_to_async_group_map))[list(event_id_to_event_map)[q]] "
                      "for q in range(len(event_id_to_event_map)))",
+        },
+        # "its predecessor links form an acyclic, single-start order in which each span follows all of its descendants": consequences of the
+        # rule LINKS that are stated over whole jobs (reachability); their vocabulary is defined natively and opaque to the solver, so they
+        # are decided at run time on every generated tree (all shapes <= 4 spans, random up to 30) - bounded, never counted as proved
+        "runtime_ensures": {
+            "acyclic": "pv_acyclic(result)",
+            "after_descendants": "pv_after_descendants(result, event_id_to_event_map)",
+            "single_start": "implies(not async_flag and len(gm(event_to_async_group_map)) == 0, pv_starts(result) == 1)",
         },
         "loops": {0: {"index": "i", "invariant": {
             "count": "len(yielded) == i",
